@@ -639,7 +639,8 @@ def build_mechanisms(P, S, A, B, obs, ref, distmax, mg, scale, ext, tolc, tolg, 
 
     # -- box-box separated, largest separating-axis gap == Euclidean distance (face features), yet mjc_BoxBox builds no manifold whatever
     # the margin: findings/C13-box-box-face-separated-no-contact-at-any-margin.md.  Confirmed per pose: no contact, GJK (mj_geomDistance)
-    # sees the true distance, and the narrow-phase routine called directly with a margin of max(1, 20*(margin+gap)) still returns 0
+    # sees the true distance, the narrow-phase routine called directly with a margin of max(1, 20*(margin+gap)) still returns 0, and
+    # the same routine returns contacts when the second box is turned by 1e-5 rad (degenerate pose, not a missing margin band)
     if isbox and ref["dist"] > 0 and not con and ref.get("sat_sep", -math.inf) >= ref["dist"] - 1e-9 * scale:
         def anymargin_():
             import ctypes as C
@@ -647,7 +648,22 @@ def build_mechanisms(P, S, A, B, obs, ref, distmax, mg, scale, ext, tolc, tolg, 
             f.restype = C.c_int
             f.argtypes = [C.c_void_p, C.c_void_p, C.c_void_p, C.c_int, C.c_int, C.c_double]
             buf = (C.c_double * 4096)()
-            return f(S.m.ptr, S.d.ptr, buf, int(S.gid[0]), int(S.gid[1]), float(max(1.0, 20 * mg))) == 0 and abs(gdA - min(ref["dist"], distmax)) <= tolg
+            if not (f(S.m.ptr, S.d.ptr, buf, int(S.gid[0]), int(S.gid[1]), float(max(1.0, 20 * mg))) == 0
+                    and abs(gdA - min(ref["dist"], distmax)) <= tolg):
+                return False
+            # ... and it is a DEGENERACY of the pose, not a missing margin band: with the second box turned by 1e-5 rad (its geom_xmat
+            # edited in place for one direct call, then restored) the routine does return contacts at the pair's own margin
+            xm = S.d["geom_xmat"]
+            saved = np.array(xm).copy()
+            try:
+                g = int(S.gid[1])
+                Rg = saved.reshape(-1, 3, 3)[g]
+                w = np.array([1.0, 1.0, 1.0]) / math.sqrt(3.0) * 1e-5
+                K = np.array([[0, -w[2], w[1]], [w[2], 0, -w[0]], [-w[1], w[0], 0]])
+                xm.reshape(-1, 9)[g, :] = (Rg @ (np.eye(3) + K)).ravel()
+                return f(S.m.ptr, S.d.ptr, buf, int(S.gid[0]), int(S.gid[1]), float(S.margin)) > 0
+            finally:
+                xm.reshape(-1, 9)[:, :] = saved.reshape(-1, 9)
         P.count("poses_box-box-face-axis-separated-no-contact")
         out.append(("box-box-face-axis-separated-no-contact-at-any-margin", lambda chk: once("bb_anymargin", anymargin_)))
 
